@@ -55,6 +55,9 @@ var errClass = regexp.MustCompile(`^(Error|TypeError|ReferenceError|RangeError|S
 // Routes by which a program reaches the interpreter.
 var Routes = []string{"source", "script", "program", "eval", "script-on-second-runtime"}
 
+// NewVM returns a fresh runtime with the recording host function H.
+func NewVM(log *[][]any) *otto.Otto { return newVM(log) }
+
 func newVM(log *[][]any) *otto.Otto {
 	vm := otto.New()
 	vm.Set("H", func(call otto.FunctionCall) otto.Value {
@@ -129,6 +132,11 @@ func runRoute(route, src string) (Obs, error) {
 	default:
 		return Obs{}, fmt.Errorf("unknown route %q", route)
 	}
+	return MakeObs(log, v, err), nil
+}
+
+// MakeObs projects the result of a Run into an observation.
+func MakeObs(log [][]any, v otto.Value, err error) Obs {
 	o := Obs{Log: log, Thr: []int{}, V: map[string]any{"t": "undef"}}
 	if o.Log == nil {
 		o.Log = [][]any{}
@@ -138,16 +146,16 @@ func runRoute(route, src string) (Obs, error) {
 		if m := errClass.FindStringSubmatch(msg); m != nil {
 			if _, isOtto := err.(*otto.Error); isOtto || strings.HasPrefix(msg, "SyntaxError") {
 				o.Thr = toUnits(m[1])
-				return o, nil
+				return o
 			}
 		}
 		// a thrown non-error value: Run reports its string form
 		o.Thr = toUnits("v")
 		o.V = map[string]any{"t": "str", "s": toUnits(msg)}
-		return o, nil
+		return o
 	}
 	o.V = proj(v)
-	return o, nil
+	return o
 }
 
 func (o Obs) JSON() string { b, _ := json.Marshal(o); return string(b) }
